@@ -21,10 +21,13 @@ interpretations `ops : Ops F` (hence for Python/NumPy float arithmetic whatever 
 
 The tie between script TEXT and tokens (regex scanner, layouts) is `scan_render` in the text-level model; the tie
 between this model and /repo is the correspondence check `harness/props/c01.py`.
-Guards (inputs on which the real code breaks the property; reproduced on every run as known findings): a variable
-sharing its name with a function called in the same statement, whitespace between a name and `[`, names starting
-with an underscore (other than `_`), numeric literals with an exponent.  They concern the text level and the
-class-body name mangling, not the token-level statements below.
+Guards.  A variable sharing its name with a function CALLED in the same statement is outside the grammar: the
+code rejects such a statement with ParserError (/repo 3f601b8; checked on every run as a regression case — before
+that commit the statement was silently lost).  Still violated by the code and reproduced on every run as known
+findings: whitespace between a name and `[`, names starting with an underscore (other than `_`), numeric literals
+with an exponent.  All of these concern the text level and the class-body name mangling, not the token-level
+statements below.  (A statement whose constant sub-expression warns or raises, e.g. `Y = log(-7) + X`, is ordinary
+input: since /repo a900a8c the syntax check compiles instead of executing it.)
 -/
 set_option linter.unusedSimpArgs false
 namespace Fsic.C01
